@@ -14,6 +14,7 @@ import DosModel.Proofs.Tbls
 import DosModel.Proofs.TblsPairing
 import DosModel.Proofs.ShareZq
 import DosModel.Props.C02
+import DosModel.Props.C09
 
 set_option linter.unusedSectionVars false
 
@@ -196,5 +197,17 @@ open C02 in
 example : recover toyCodec [(4 : Zq 11), 3] 2
     [[0, 2, 4], [0, 2, 4, 77], [5], [0, 0, 8], [0, 7, 10], [0, 1, 4]] 2 3 = .errFew :=
   below_threshold_errors toyCodec _ 2 2 3 (by decide) _ (by decide)
+
+open C02 in
+example : blsVerifyR toyCodec (4 : Zq 11) 2 (blsSign toyCodec (4 : Zq 11) 2) = .ok :=
+  (recover_ok_verifies toyCodec toyCodec_roundtrip [(4 : Zq 11), 3] 2 2 3 (by decide) (by decide)
+    (C09.zq_charGt 11 3 (by decide))
+    [[0, 9, 200], [0, 2, 4], [0, 2, 4, 77], [5], [0, 0, 8], [0, 0, 3]] _ (by decide)).2.2
+
+open C02 in
+example : validIdx toyCodec [(4 : Zq 11), 3] 2 3 [0, 1, 4] = none :=
+  other_index_never_counts toyCodec [(4 : Zq 11), 3] 2
+    (fun c h => (mul_eq_zero.1 (show c * 2 = 0 from h)).resolve_right (by decide)) 3 [0, 1, 4] 2 1 (by decide)
+    (by decide) (by decide)
 
 end Dos.Props.C03
